@@ -41,7 +41,10 @@ Conform(e) == IF e.err # "" THEN "prebuilds" ELSE FirstBad(<<
     <<"variables", OwnVars(e) = ExpVars(e)>>,
     <<"parameters", BagEq(e.facts.ppairs, ParamPairs(e.src))>>,
     \* C08: the keyword-valued attributes are stored in one letter case whatever the case of the source text
-    <<"keyword_case", e.strict = "no" \/ \A i \in DOMAIN e.facts.rawkw : e.facts.rawkw[i][1] = e.facts.rawkw[i][2]>>
+    <<"keyword_case", e.strict = "no" \/ \A i \in DOMAIN e.facts.rawkw : e.facts.rawkw[i][1] = e.facts.rawkw[i][2]>>,
+    \* C08: the population is a function of the tokens and their positions; e.casediff lists the instances (all attribute
+    \* values except identifiers) by which it differs from the one prebuilt from the same text with lower-case keywords
+    <<"case_independent", e.casediff = <<>>>>
   >>)
 
 TNext == /\ TEnabled /\ UNCHANGED dummy
